@@ -139,3 +139,14 @@ func C15Cache(endpoints []string, key string) map[string]string {
 	}
 	return out
 }
+
+// C15WatchConnState starts what cluster.newClient starts for a real client:
+// the connection-state watcher on cli.ActiveConnection().
+func C15WatchConnState(endpoints []string, cli EtcdClient) bool {
+	c := c15Cluster(endpoints)
+	if c == nil {
+		return false
+	}
+	go c.watchConnState(cli)
+	return true
+}
